@@ -12,7 +12,7 @@ EXPLANATION = (
     "check and the other recursive functions over Tag cover every nested variant, so no infinite type is bound. (R3) "
     "occurs() dominates every union(). Panics justified by type checking are C01; recursion depth, hangs outside the "
     "unifier and process behaviour are not decided.")
-EXPLANATION += ' Further clauses: the domain of R1 includes the code that turns locators from program text or configuration into paths and files; (R4) MEMO-TOTAL, (R5) STATUS-CONV, (R6) CHECK-TOTAL and (R7) ARGS-AGREE (shared C01), (R8) GRAPH-COMPLETE (shared C08/C09: an unseen cycle overflows the stack), (R9) EMIT-TOTAL - variant sets at every call of an emitter function with unreachable!() arms. (R10) RECURSION-SAFE (shared C09.R3/R5).'
+EXPLANATION += ' Further clauses: the domain of R1 includes the code that turns locators from program text or configuration into paths and files; (R4) MEMO-TOTAL, (R5) STATUS-CONV, (R6) CHECK-TOTAL and (R7) ARGS-AGREE (shared C01), (R8) GRAPH-COMPLETE (shared C08/C09: an unseen cycle overflows the stack), (R9) EMIT-TOTAL - variant sets at every call of an emitter function with unreachable!() arms. (R10) RECURSION-SAFE (shared C09.R3/R5). (R11) JOIN-AGREE / LOCATORS (shared C10.R5, C10.R7).'
 ASSUMPTIONS = ["logos yields spans inside the input on character boundaries", "LSP clients send ranges with start <= end"]
 TECHNIQUE = "static analysis: panic-sink census over the call graph with a per-symbol allow-list; ADT/HIR recursion coverage; MIR dominance"
 
